@@ -9,6 +9,8 @@ import Vet.Model.Validate
 import Vet.Model.Aggregate
 import Vet.Model.Registry
 import Vet.Model.Suggest
+import Vet.Model.Unpack
+import Vet.Model.Serde
 namespace Vet.Wire
 open Vet
 
@@ -343,6 +345,55 @@ def sugFailure : P Sug.Failure := do
   let r ← optVerList
   let t ← optVerList
   pure ⟨r, t⟩
+
+def upNode : P Unpack.Node := do
+  let t ← nat
+  match t with
+  | 0 => pure .dir
+  | 1 => Unpack.Node.file <$> nat
+  | 2 => Unpack.Node.symlink <$> list nat
+  | _ => failure
+
+def upComp : P Unpack.Comp := do
+  let t ← nat
+  match t with
+  | 0 => Unpack.Comp.normal <$> nat
+  | 1 => pure .parent
+  | 2 => pure .root
+  | _ => failure
+
+def upKind : P Unpack.EntryKind := do
+  let t ← nat
+  match t with
+  | 0 => Unpack.EntryKind.file <$> nat
+  | 1 => pure .dir
+  | 2 => Unpack.EntryKind.symlink <$> list nat
+  | _ => failure
+
+def upEntry : P Unpack.Entry := do
+  let p ← list upComp
+  let k ← upKind
+  pure ⟨p, k⟩
+
+def insertPath (x : List Nat × Unpack.Node) : List (List Nat × Unpack.Node) → List (List Nat × Unpack.Node)
+  | [] => [x]
+  | y :: ys => if lexLt x.1 y.1 then x :: y :: ys else y :: insertPath x ys
+
+def upNodeToks : Unpack.Node → List Nat
+  | .dir => [0]
+  | .file c => [1, c]
+  | .symlink t => 2 :: listToks t
+
+def fsToks (fs : Unpack.FS) : List Nat :=
+  let sorted := fs.foldr insertPath []
+  sorted.length :: sorted.flatMap (fun (p, n) => listToks p ++ upNodeToks n)
+
+/-- shape of a string_or_vec value: `0 s` bare string, `1 k s…` array -/
+def strOrVecToks (v : Serde.Val) : List Nat :=
+  match v with
+  | .str s => [0, s]
+  | .arr items => [1, items.length] ++ items.map (fun i => match i with | .str s => s | _ => 99999)
+  | _ => [2]
 
 def resultToks : PkgResult → List Nat
   | .firstParty => [0]
